@@ -381,12 +381,12 @@ pub fn bnd_c18() {
         }
     }
     // the same rule given as a document style sheet (in the head, at the start and in the middle of the body), with document CSS enabled
-    for place in 0..3 { for width in [20usize, 60] {
-        let sheet = "<style>.h{display:none;}</style>";
+    for place in 0..4 { for width in [20usize, 60] {
+        let sheet = if place == 3 { "<style>a:hover{color:#ffffff;} p::first-line{x:y;}</style><style>.h{display:none;}</style>" } else { "<style>.h{display:none;}</style>" };
         let body_hidden = "<p>keep1</p><p class=\"h\">gone</p><ul><li>keep2</li><li class=\"h\">gone2</li></ul>";
         let body_deleted = "<p>keep1</p><ul><li>keep2</li></ul>";
         let doc = match place { 0 => format!("<html><head>{}</head><body>{}</body></html>", sheet, body_hidden), 1 => format!("<html><body>{}{}</body></html>", sheet, body_hidden), _ => format!("<html><body><p>keep0</p>{}{}</body></html>", sheet, body_hidden) };
-        let del = if place == 2 { format!("<html><body><p>keep0</p>{}</body></html>", body_deleted) } else { format!("<html><body>{}</body></html>", body_deleted) };
+        let del = if place >= 2 { format!("<html><body><p>keep0</p>{}</body></html>", body_deleted) } else { format!("<html><body>{}</body></html>", body_deleted) };
         let input = format!("width={} use_doc_css=true html={}", width, doc);
         rep.case(&input);
         let (d1, d2) = (doc.clone(), del.clone());
@@ -795,7 +795,7 @@ pub fn c07_compose() {
 // ------------------------------------------------------------------------------------------------------------------------------
 // C07: list numbering and alignment (do_render_node Ol/Ul arms, calc_ol_prefix_size, append_subrender as wholes).
 pub fn bnd_c07() {
-    let starts: Vec<i64> = if thorough() { vec![1, 0, -1, -3, 7, 8, 9, 95, 98, 99, 100, 998, -10, -11] } else { vec![1, 0, -1, 8, 9, 98, 99, -10] };
+    let starts: Vec<i64> = if thorough() { vec![1, 0, -1, -3, 7, 8, 9, 95, 98, 99, 100, 998, -10, -11] } else { vec![1, 0, -1, 8, 9, 98, 99, -10, -12, -99] };
     let mut rep = Report::new("bnd_c07", &format!("ordered lists with start in {:?}, 1..=12 items (one item with text that wraps, one with a nested ordered or unordered list), widths 8..=30 step 1; plain decorator: \
         item k carries the number start+k-1, all markers of a list are padded to one common width (the widest marker), continuation lines and nested lists are indented by that width, lines within the width", starts));
     for &st in &starts { for n in 1..=12usize { for nested in [0, 1, 2] {
@@ -1076,6 +1076,13 @@ pub fn bnd_doc() {
                     // the overflow bound of the property: the deepest chain of block prefixes plus the 5 columns the layout reserves at least
                     let bound = w.max(pmax + 5);
                     if let Some(l) = o.lines().find(|l| UnicodeWidthStr::width(*l) > bound) { rep.found(&input, &format!("with overflow allowed, line {:?} is {} columns wide; bound max(width, P + 5) = {} with P = {}", l, UnicodeWidthStr::width(l), bound, pmax)); continue; }
+                    // the overflow option stays total in combination with the other layout options
+                    let h = html.clone();
+                    match panic::catch_unwind(move || config::plain().allow_width_overflow().pad_block_width().string_from_read(h.as_bytes(), w)) {
+                        Err(_) => { rep.found(&input, "panic (allow_width_overflow + pad_block_width)"); continue; }
+                        Ok(Err(e)) => { rep.found(&input, &format!("error {:?} although width overflow is allowed (with pad_block_width)", e)); continue; }
+                        Ok(Ok(p)) => { let a: Vec<&str> = p.lines().map(|l| l.trim_end()).collect(); let b: Vec<&str> = o.lines().map(|l| l.trim_end()).collect(); if a != b { rep.found(&input, &format!("pad_block_width changed more than trailing spaces under overflow: {:?} vs {:?}", p, o)); continue; } }
+                    }
                 }
             }
             if w >= 2 {
@@ -1159,6 +1166,7 @@ fn c03_docs() -> Vec<(&'static str, &'static str)> {
         ("<ul><li>k1</li></ul>k2<ol><li>k3</li></ol>k4<dl><dd>k5</dd></dl>k6", "k1k2k3k4k5k6"),
         ("<p>k1<br>k2<hr>k3</p>", "k1k2k3"),
         ("<div><span id=a></span><p id=b></p>k1<ul><li></li><li>k2</li></ul></div>", "k1k2"),
+        ("<p>x<sup>k1<em>k2</em></sup> <sup><b>k3</b>k4</sup> <sup>1<i>k5</i></sup> <sub>k6<u>k7</u></sub></p>", "xk1k2k3k41k5k6k7"),
         // elements whose content the parser hands over as one raw text node are body text like any other
         ("<p>k1</p><noscript>k2</noscript><iframe>k3</iframe><noembed>k4</noembed><noframes>k5</noframes><xmp>k6</xmp><p>k7</p>", "k1k2k3k4k5k6k7"),
         ("<table><tr><td>k1<noscript>k2</noscript></td><td><iframe>k3</iframe></td></tr></table>", "k1k2k3"),
@@ -1285,6 +1293,9 @@ pub fn c08_elements() {
         ("<ol><li><a href=\"u1\">L1</a></li><li>x</li><li><a href=\"u2\">L2</a></li></ol>", vec!["u1", "u2"]),
         ("<table><thead><tr><th><a href=\"u1\">L1</a></th></tr></thead><tfoot><tr><td><a href=\"u2\">L2</a></td></tr></tfoot></table>", vec!["u1", "u2"]),
         ("<div><a href=\"u1\">L1</a><br><a href=\"u2\">L2</a><hr><a href=\"u3\">L3</a></div>", vec!["u1", "u2", "u3"]),
+        // more than nine links: the labels of the list are the references, unpadded
+        ("<p><a href=\"u1\">L1</a> <a href=\"u2\">L2</a> <a href=\"u3\">L3</a> <a href=\"u4\">L4</a> <a href=\"u5\">L5</a> <a href=\"u6\">L6</a></p><ul><li><a href=\"u7\">L7</a> <a href=\"u8\">L8</a> <a href=\"u9\">L9</a></li><li><a href=\"u10\">L10</a> <a href=\"u11\">L11</a> <a href=\"u12\">L12</a></li></ul>",
+         vec!["u1", "u2", "u3", "u4", "u5", "u6", "u7", "u8", "u9", "u10", "u11", "u12"]),
     ];
     let mut rep = Report::new("c08_elements", &format!("{} documents with links in pre, headings, around images and blocks, without href, in nested lists, spanning cells, definition lists, adjacent, inside inline markup,         nested quotes, content-less, nested tables, sup/code, details, ordered lists, table head/foot; widths 30, 60; plain decorator with footnotes: references are [1]..[n] in document order, each right after its link text,         and the list at the end is [k]: target_k; without footnotes neither appears", docs.len()));
     for (html, hrefs) in &docs { for width in [30usize, 60] { for on in [true, false] {
@@ -1306,7 +1317,8 @@ pub fn c08_elements() {
             if !ok { rep.found(&input, &format!("link text L{} is not followed by its own number before the next link; output {:?}", k, out)); break; }
         }
         let want_heads: Vec<(usize, String)> = (1..=n).map(|k| (k, hrefs[k - 1].to_string())).collect();
-        if heads != want_heads { rep.found(&input, &format!("footnote list {:?}, expected {:?}; output {:?}", heads, want_heads, out)); }
+        if heads != want_heads { rep.found(&input, &format!("footnote list {:?}, expected {:?}; output {:?}", heads, want_heads, out)); continue; }
+        for k in 1..=n { let want_line = format!("[{}]: {}", k, hrefs[k - 1]); if !out.lines().any(|l| l.trim_end() == want_line) { rep.found(&input, &format!("no footnote line {:?}; output {:?}", want_line, out)); break; } }
     }}}
     rep.finish();
 }
@@ -1569,7 +1581,7 @@ pub fn bnd_c15() {
     for i in 0..ndoc {
         let mut tok = 0;
         let mut html = String::new();
-        if i % 2 == 0 { for _ in 0..1 + r.below(2) { html.push_str(&gen_block(&mut r, &mut tok, 0)); } html.push_str("<p>a <s>struck text</s> b <s>two  spaces\n   and a newline</s> c <s>nl\nsep\ttab</s></p><pre>p <s>l1\nl2\tl3</s></pre><br><p>Hello there</p><table><tr><td><br>x1</td><td>y2<br><br>z3</td></tr></table><div><br></div><p>end</p>"); }
+        if i % 2 == 0 { for _ in 0..1 + r.below(2) { html.push_str(&gen_block(&mut r, &mut tok, 0)); } html.push_str("<p>a <s>struck text</s> b <s>two  spaces\n   and a newline</s> c <s>nl\nsep\ttab</s></p><pre>p <s>l1\nl2\tl3</s></pre><s><p>one</p> <p>two</p></s><table><tr><td><s><p>c1</p> </s></td><td>c2</td></tr></table><br><p>Hello there</p><table><tr><td><br>x1</td><td>y2<br><br>z3</td></tr></table><div><br></div><p>end</p>"); }
         else {
             html.push_str("<table>");
             for _ in 0..1 + r.below(3) { html.push_str("<tr>"); for _ in 0..2 { tok += 1; if r.below(2) == 0 { html.push_str(&format!("<td>c{} <a href=\"http://h/{}\">link{}</a> t</td>", tok, tok, tok)); } else if r.below(3) == 0 { html.push_str(&format!("<td>cell{} with a much longer run of words than any width used here so that estimates exceed the width</td>", tok)); } else { html.push_str(&format!("<td>cell{} words here</td>", tok)); } } html.push_str("</tr>"); }
